@@ -86,8 +86,17 @@ def emit(elems):
     return "".join(out)
 
 
+FORCE_DEGRADE = set()   # fn names (last path segment) whose changed text Verus could not process: weave them as assumed
+
+
 def weave_region(repo, header, lines, start_line, tmpl_name, report):
     try:
+        m0 = re.match(r'//@extract\s+fn\s+(\S+)\s+"([^"]*)"\s+(\S+)\s*$', header)
+        if m0 and m0.group(3) in FORCE_DEGRADE:
+            probe = {'items': []}
+            _weave_region(repo, header, lines, start_line, tmpl_name, probe)
+            if probe['items'] and not probe['items'][-1].get('identical_to_annotated_baseline', True):
+                raise WeaveError('ANCHOR-LOST (forced): the edited body of %s is outside the subset Verus accepts with the existing annotations' % m0.group(3))
         return _weave_region(repo, header, lines, start_line, tmpl_name, report)
     except WeaveError as e:
         m = re.match(r'//@extract\s+fn\s+(\S+)\s+"([^"]*)"\s+(\S+)\s*$', header)
@@ -111,7 +120,20 @@ def weave_region(repo, header, lines, start_line, tmpl_name, report):
                                 'token_sha': '', 'identical_to_annotated_baseline': False, 'normalisations': [], 'transplanted_hunks': [],
                                 'template': '%s:%d' % (tmpl_name, start_line), 'anchor_lost': str(e),
                                 'obligation': '::'.join(x for x in (stem, typ, name) if x)})
-        return '// ---- ANCHOR LOST (body assumed, obligation undecided): %s\n#[verifier::external_body]\n' % str(e).replace('\n', ' ')[:300] + emit(elems).lstrip('\n') + '\n'
+        # keep signature + contract, drop the body (it may use loop ghost state that does not exist in an assumed fn)
+        depth, cut = 0, None
+        for idx, el in enumerate(elems):
+            if el.kind != 'tok' or el.deleted:
+                continue
+            if el.text in ('(', '['):
+                depth += 1
+            elif el.text in (')', ']'):
+                depth -= 1
+            elif el.text == '{' and depth == 0:
+                cut = idx
+                break
+        head = elems[:cut] if cut is not None else elems
+        return '// ---- ANCHOR LOST (body assumed, obligation undecided): %s\n#[verifier::external_body]\n' % str(e).replace('\n', ' ')[:300] + emit(head).lstrip('\n') + '\n    { unimplemented!() }\n'
 
 
 def _weave_region(repo, header, lines, start_line, tmpl_name, report):
